@@ -23,7 +23,13 @@ rule = ("framings: the four COBS variants everywhere, zero terminated command te
         "sender side (refusals, partial pushes); stream 4 = several small frames in one sender ring with partial "
         "flushes and 'eq align' (encoding in the upper part, out-of-band scratch wrap, second push); stream 5 = the real "
         "mpt_stream_push/flush/poll/dispatch over socket pairs ('st ...' ops, the driver forwards the bytes in the scripted "
-        "sizes; compared with the spec only).  Non-trivial = a script in "
+        "sizes; compared with the spec only; the receiver is in turn mpt_stream_dispatch on a plain stream, the input object "
+        "of mpt_stream_input ('st new <codec> input': streamDispatch of stream_input.c, 'st skip' = dispatch without handler) and "
+        "mpt_stream_sync with a table of nine waiting commands ('st new <codec> wait': messages carry a reply id byte); "
+        "'st abort' = mpt_stream_push(srm, 1, 0)); stream 6 = message removal 'eq del k' (mpt_queue_push(qu, k, NULL)) on "
+        "wrapped sender rings between pushes, terminations, partial flushes and 'eq align', COBS variants and raw.  A second "
+        "driver part (harness/drvxx_cqueue.cpp) runs the queue scripts through the C++ wrappers encode_queue::push/trim and "
+        "decode_queue::advance/current_message of mpt++/queue.cpp.  Non-trivial = a script in "
         "which at least one frame was split across deliveries (a 'dq wire' ended inside a frame) AND the stored data "
         "of a ring wrapped (off+len>max in the code's output), counted per distinct script")
 assumptions = [
@@ -35,7 +41,9 @@ assumptions = [
 ]
 trusted = ["hand-written model MptModel/Impl/CodedQueue.lean (on top of the C13 ring model and the C01/C03 codec models) tied to "
            "mptcore/queue/queue_push.c, queue_recv.c, queue_shift.c, queue_peek.c, mptcore/message/message_get.c by "
-           "harness/drv_cqueue.c (differential execution, all state fields and the storage compared)"]
+           "harness/drv_cqueue.c and to mpt++/queue.cpp by harness/drvxx_cqueue.cpp (differential execution, all state fields "
+           "and the storage compared); the glue (mptio/stream/stream_push.c, stream_flush.c, stream_poll.c, stream_dispatch.c, "
+           "stream_input.c, stream_sync.c) is compared with the spec only"]
 
 
 def corpus(chk):
@@ -267,6 +275,10 @@ def scripts(tier, seed, scale=1):
             if mode == " wait":
                 # replies: the id byte with the reply bit (ids 1..12; 0 would use up the fallback command)
                 m = [0x80 | r.randint(1, 12)] + list(m)
+            if m and r.random() < 0.2:
+                # a message that is given up: nothing of it may reach the receiver
+                junk = [r.choice([0, 7, 9, 255]) for _ in range(r.choice([1, 3, 40, 300]))]
+                lines += ["st push " + gen.hexs(junk), "st abort"]
             for c in (c01.chunkings(r, m, r.choice(["one", "rand"])) if m else []):
                 lines.append("st push " + gen.hexs(c))
             lines.append("st term")
